@@ -15,6 +15,7 @@ mod sx_schema;
 mod c11;
 mod c04;
 mod c08;
+mod c12;
 
 use out::Out;
 
@@ -62,6 +63,7 @@ fn main() {
                 "c11" => c11::run(&args, &mut out),
                 "c04" => c04::run(&args, &mut out),
                 "c08" => c08::run(&args, &mut out),
+                "c12" => c12::run(&args, &mut out),
                 s => { eprintln!("unknown stream {s}"); std::process::exit(2); }
             }
             out.write(&args.out);
